@@ -617,8 +617,11 @@ def _arr_astype(ex, st, args, kw, node):
 
 def _arr_any(ex, st, args, kw, node):
     d = ex.arr(st, args[0])
-    if d.elem != "bool" or d.rank != 1:
+    if d.elem != "bool":
         raise Undecided(".any() of non-bool")
+    if d.rank == 2:
+        r, c = z3.Ints("r!any c!any")
+        return z3.Exists([r, c], z3.And(r >= 0, r < d.shape[0], c >= 0, c < d.shape[1], ex.sel2(d, r, c)))
     return COUNT(d.data, d.shape[0]) > 0
 
 
